@@ -301,6 +301,107 @@ func runC04(r *core.Run) {
 			return core.Outcome{Class: fmt.Sprint("N=", rec.N), Nontrivial: !trivial, Evals: 3}
 		})
 
+	core.Clause(r, "all-bytes-fields", core.Opts{Rule: "every byte value except TAB, CR, LF in Chrom and Name (alone, first, middle, last; '#' not first in Chrom), N = 4 and 12; non-trivial = all"},
+		func(emit func(bedRec) bool) {
+			for b := 0; b < 256; b++ {
+				if b == '\t' || b == '\r' || b == '\n' {
+					continue
+				}
+				for _, n := range []int{4, 12} {
+					for fi := 0; fi < 2; fi++ {
+						for _, v := range []string{string([]byte{byte(b)}), string([]byte{byte(b), 'a'}), string([]byte{'a', byte(b), 'c'}), string([]byte{'a', byte(b)})} {
+							if fi == 0 && v[0] == '#' {
+								continue
+							}
+							rec := defaultBed(n)
+							if fi == 0 {
+								rec.Chrom = core.S(v)
+							} else {
+								rec.Name = core.S(v)
+							}
+							if !emit(rec) {
+								return
+							}
+						}
+					}
+				}
+			}
+		},
+		func(rec bedRec) core.Outcome {
+			data, fail := writeBedChecked(rec)
+			if fail != "" {
+				return core.Failf("%s", fail)
+			}
+			got, p := readBedAll(data)
+			want := renderBED(rec.expectBack())
+			if p != "" || len(got) != 1 || got[0].IsErr() || got[0].Rec != want {
+				return core.Failf("N=%d: line %q reads back as %s %s, want %s", rec.N, data, renderObs(got), p, want)
+			}
+			return core.Outcome{Class: "ok", Nontrivial: true, Evals: 3}
+		})
+
+	var blens []int
+	for l := 0; l <= 100; l++ {
+		blens = append(blens, l)
+	}
+	for _, c := range []int{4096, 8192, 65536} {
+		for l := c - 60; l <= c+8; l++ {
+			blens = append(blens, l)
+		}
+	}
+	blens = append(blens, 131072, core.Pick(r, 500000, 4000000))
+	r.Bound("long-lines", "three records (N=4) whose middle one has a Name of every length 0..100, every length in [c-60, c+8] for c in {4096, 8192, 65536}, 131072 and one larger, with '#' and '\"' inside; and N=12 records with 0..40, 400 and 5000 blocks")
+	core.Clause(r, "long-lines", core.Opts{Rule: "lines of every listed length between two ordinary lines; all three records must come back; non-trivial = length >= 2"},
+		func(emit func(c04BadN) bool) {
+			for _, l := range blens {
+				if !emit(c04BadN{l}) {
+					return
+				}
+			}
+			for k := 0; k <= 40; k++ {
+				emit(c04BadN{-k - 1})
+			}
+			emit(c04BadN{-401})
+			emit(c04BadN{-5001})
+		},
+		func(c c04BadN) core.Outcome {
+			first, mid, last := defaultBed(4), defaultBed(4), defaultBed(4)
+			if c.N >= 0 {
+				nm := longSeq(c.N)
+				for i := 7; i < len(nm); i += 41 {
+					nm[i] = "#\", "[(i/41)%4]
+				}
+				mid.Name = core.S(nm)
+			} else {
+				k := -c.N - 1
+				first, mid, last = defaultBed(12), defaultBed(12), defaultBed(12)
+				mid.BlockCount = k
+				for i := 0; i < k; i++ {
+					mid.BlockSizes = append(mid.BlockSizes, i*7)
+					mid.BlockStarts = append(mid.BlockStarts, i*1000003)
+				}
+			}
+			first.Chrom, last.Chrom = "first", "last"
+			var file bytes.Buffer
+			var want []obsItem
+			for _, rc := range []bedRec{first, mid, last} {
+				d, fail := writeBedChecked(rc)
+				if fail != "" {
+					return core.Failf("%s", fail)
+				}
+				file.Write(d)
+				want = append(want, obsItem{Rec: renderBED(rc.expectBack())})
+			}
+			got, p := readBedAll(file.Bytes())
+			if p != "" {
+				return core.Failf("Reader panicked/hung: %s", p)
+			}
+			if !sameShape(got, want) {
+				return core.Failf("a file whose middle line is %d bytes long (case %d) reads back as %s", len(file.Bytes())-20, c.N, trunc(renderObs(got), 300))
+			}
+			return core.Outcome{Class: fmt.Sprint("blocks=", c.N < 0), Nontrivial: c.N >= 2 || c.N < -1, Evals: 4}
+		})
+
 	core.Clause(r, "files", core.Opts{Rule: "for every N, every list of 0..3 records (sharing that N) from a pool of 4 with quotes, '#', empty fields: the reader returns the records in order; non-trivial = at least 2 records"},
 		func(emit func(c04File) bool) {
 			for n := 3; n <= 12; n++ {
